@@ -91,7 +91,7 @@ func stringNonEmptyTests(fn *ssa.Function, owner string) map[ssa.Value]ssax.AV {
 
 func c07(c *core.Ctx) {
 	c.Explain("C07 (retained messages): decided statically — R1 in the PUBLISH path the retained store is touched only under the RETAIN flag, AddOrReplace is unreachable for an empty payload and Remove for a non-empty one, both arms are keyed by the same (resolved) topic, and the store receives a private copy; R2 retained replay in subscribeHandler is unreachable for a shared subscription and for a failed one, and the gate does not depend on a previous topic of the same SUBSCRIBE (no loop-carried state); R3 the replayed QoS is min(stored, granted); R4 the replay path does not clear the RETAIN flag; R5 the retained store's read API returns copies.")
-	c.NotDecided("which retained topics match a filter (trie walk), Retain Handling truth table beyond the gate shape, histories")
+	c.NotDecided("which retained topics match a filter (the matching walk of the retained trie), histories")
 	p := c.P
 	fl := ssax.NewFlow()
 	ph := p.Func("server", "(*client).publishHandler")
@@ -390,6 +390,64 @@ func c07(c *core.Ctx) {
 			pos = ipos(c, where)
 		}
 		c.Check(ok, "C07.R5", "retained/trie|"+m+"|returns-copy", pos, "returns copies of the stored messages", m+" hands out the stored message object itself: callers (QoS clamp, flag changes on replay) mutate the retained message")
+	}
+
+	// ---- R6 clearing a retained message forgets exactly that topic: a node of the retained trie is unlinked only
+	// when it has no children and holds no message itself
+	{
+		rm := p.Func("retained/trie", "(*topicTrie).remove")
+		c.Analysed(fname(rm))
+		n := 0
+		for i, d := range ssax.Calls(rm, false, ssax.ByName("builtin:delete")) {
+			m := rawArgs(d.Instr)[0]
+			// <node>.parent.children
+			var node ssa.Value
+			for v := range ssax.Backward(m) {
+				if fa, ok := v.(*ssa.FieldAddr); ok && ssax.FieldOwner(fa) == "retained/trie.topicNode.parent" {
+					node = fa.X
+				}
+			}
+			if node == nil {
+				continue
+			}
+			n++
+			key := fmt.Sprintf("retained-trie|remove|prune#%d", i)
+			okChildren, okMsgGuard := false, false
+			for _, g := range ssax.Guards(d.Instr) {
+				bo, ok := g.Cond.(*ssa.BinOp)
+				if !ok {
+					continue
+				}
+				if call, isCall := bo.X.(*ssa.Call); isCall {
+					if b, isB := call.Call.Value.(*ssa.Builtin); isB && b.Name() == "len" && ssax.AnyIn(ssax.Backward(call.Call.Args[0]), ssax.LoadOfField("retained/trie.topicNode.children")) {
+						if k, isC := constInt(bo.Y); isC && k == 0 && cmpUnder(bo, g.Branch) == token.EQL {
+							okChildren = true
+						}
+					}
+				}
+				if (isNilConst(bo.Y) || isNilConst(bo.X)) && cmpUnder(bo, g.Branch) == token.EQL && (ssax.LoadOfField("retained/trie.topicNode.msg")(bo.X) || ssax.LoadOfField("retained/trie.topicNode.msg")(bo.Y)) {
+					okMsgGuard = true
+				}
+			}
+			c.Check(okChildren, "C07.R6", key+"|children-empty", ipos(c, d.Instr), "unlinked only without children", "a node of the retained trie is unlinked without checking that it has no children: retained messages of deeper topics are forgotten")
+			// the node's own message: cleared just before on this very node, or tested
+			cleared := false
+			if ssax.LoopCarried(node) == nil || !ssax.InLoop(d.Instr.Block()) {
+				for _, st := range storesToField(rm, "retained/trie.topicNode.msg") {
+					if isNilConst(st.Val) && ssax.Dominates(st, d.Instr) {
+						if fa, ok := st.Addr.(*ssa.FieldAddr); ok && (fa.X == node || ssax.SameExpr(fa.X, node)) {
+							cleared = true
+						}
+					}
+				}
+			}
+			// inside a loop that walks up the trie the key must follow the node
+			if ssax.LoopCarried(m) != nil && ssax.InLoop(d.Instr.Block()) {
+				c.Check(ssax.LoopCarried(rawArgs(d.Instr)[1]) != nil, "C07.R6", key+"|key-tracks-node", ipos(c, d.Instr), "the key changes with the node", "while pruning upwards the key removed from the parent's children stays the leaf's name: a sibling of an ancestor that happens to carry that name (with all its retained messages) is unlinked instead")
+			}
+			c.Check(cleared || okMsgGuard, "C07.R6", key+"|holds-no-message", ipos(c, d.Instr), "the unlinked node holds no retained message", "a node of the retained trie is unlinked although it may hold a retained message of its own (an ancestor reached while pruning upwards): clearing 'a/b' also forgets the retained message of 'a'")
+		}
+		c.Check(n >= 1, "C07.R6", "retained-trie|remove|prunes", fpos(c, rm), "remove prunes the cleared leaf", "retained trie remove no longer unlinks the cleared node")
 	}
 }
 
